@@ -478,26 +478,51 @@ func r056(c *Ctx, r *R) {
 		if f == nil {
 			continue
 		}
+		wantM := map[string]string{"pin": "Pin", "unpin": "Unpin"}[n]
+		// the connector call: a gorpc call site of the function, or of a
+		// wrapper shared by pin and unpin that is told the method name
+		frame, opIdx := f, 1 // the function whose frame holds the call, and which of its parameters is the operation
 		var site *RPCSite
 		for _, s := range c.RPC {
 			if s.Fn == f {
 				site = s
 			}
 		}
+		okTarget := site != nil && site.Resolved && len(site.Targets) == 1 && site.Targets[0].Svc == "IPFSConnector" && site.Targets[0].Method == wantM
+		if site == nil {
+			for _, u := range c.rpcUsesIn(f) {
+				if u.Wrapper == nil || u.Svc != "IPFSConnector" {
+					continue
+				}
+				for _, s := range c.RPC {
+					if s.Fn == u.Wrapper {
+						site = s
+					}
+				}
+				frame, opIdx = u.Wrapper, -1
+				for i, arg := range u.Call.Common().Args {
+					if paramIndex(f, arg) == 1 {
+						opIdx = i
+					}
+				}
+				okTarget = u.Method == wantM
+			}
+		}
 		if site == nil {
 			r.Bad(n+":rpc", f.Pos(), "Tracker.%s makes no IPFSConnector call", n)
 			continue
 		}
+		isOp := func(v ssa.Value) bool { return opIdx >= 0 && paramIndexLocal(frame, v) == opIdx }
 		a := callArgs(site.Call.Common())
 		fromOp := func(v ssa.Value) bool {
 			for d := 0; d < 4 && v != nil; d++ {
-				call, _ := originCall(v)
+				call, _ := originCallLocal(v)
 				if call == nil {
 					return false
 				}
 				cn := callName(call.Common())
 				if nameMatches(cn, "optracker.Operation).Context") {
-					return paramIndex(f, call.Common().Args[0]) == 1
+					return isOp(call.Common().Args[0])
 				}
 				// context wrappers keep cancellation: StartSpan(ctx,…), WithTimeout(ctx,…), NewContext(ctx,…)
 				if len(call.Common().Args) == 0 {
@@ -507,13 +532,12 @@ func r056(c *Ctx, r *R) {
 			}
 			return false
 		}
-		wantM := map[string]string{"pin": "Pin", "unpin": "Unpin"}[n]
-		r.Check(site.Resolved && len(site.Targets) == 1 && site.Targets[0].Svc == "IPFSConnector" && site.Targets[0].Method == wantM, n+":target", site.Call.Pos(),
+		r.Check(okTarget, n+":target", site.Call.Pos(),
 			"Tracker."+n+" calls IPFSConnector."+wantM, "Tracker."+n+" calls a different connector method")
 		r.Check(fromOp(a[0]), n+":op-context", site.Call.Pos(), "the request's context derives from op.Context()", "the IPFS request does not run under the operation's context: cancelling the operation (untrack, replace) no longer stops it and a late completion overrides the newer instruction")
 		// the pin sent is the operation's pin
-		pc, _ := originCall(a[4])
-		r.Check(pc != nil && nameMatches(callName(pc.Common()), "optracker.Operation).Pin") && paramIndex(f, pc.Common().Args[0]) == 1, n+":op-pin", site.Call.Pos(),
+		pc, _ := originCallLocal(a[4])
+		r.Check(pc != nil && nameMatches(callName(pc.Common()), "optracker.Operation).Pin") && isOp(pc.Common().Args[0]), n+":op-pin", site.Call.Pos(),
 			"the request carries op.Pin()", "the request does not carry the operation's pin")
 	}
 }
